@@ -62,3 +62,5 @@ def run(ctx):
     _b.check_guards(ctx, 'C10.RG', 'C10')
     from .. import boundaries as _b
     _b.check_amounts(ctx, 'C10.RA', 'C10')
+    from .. import boundaries as _b
+    _b.check_counts(ctx, 'C10.RQ', 'C10')
